@@ -6,7 +6,8 @@ then runs the property's check against the changed copy (VERIF_REPO) and stores 
 /verif/seeded/<seed_id>/ (patch.diff, demo, README.md, meta.json)."""
 import json, os, re, shutil, subprocess, sys, tempfile
 pid, src, sid = sys.argv[1], sys.argv[2], sys.argv[3]
-tier = sys.argv[4] if len(sys.argv) > 4 else 'quick'
+tier = sys.argv[4] if len(sys.argv) > 4 and not sys.argv[4].startswith('--') else 'quick'
+recheck = '--recheck' in sys.argv        # only re-run the check against the kept patch and update meta.json
 env = dict(os.environ, GOFLAGS='-mod=mod', GOPROXY='off', GOSUMDB='off', GOTOOLCHAIN='local')
 d = tempfile.mkdtemp(prefix='seed-')
 repo = d + '/repo'
@@ -22,6 +23,22 @@ def run_demo():
                        cwd=repo, env=env, capture_output=True, text=True)
     return p.returncode, (p.stdout + p.stderr)[-1500:]
 meta = {'seed': sid, 'property': pid, 'source': 'independent sub-agent given only the property text and a scratch worktree'}
+if recheck:
+    meta = json.load(open('/verif/seeded/' + sid + '/meta.json'))
+    os.remove(demo_dst)
+    p = subprocess.run(['patch', '-p1', '-s', '-i', os.path.abspath(src + '/patch.diff')], cwd=repo, capture_output=True, text=True)
+    if p.returncode != 0:
+        print(sid, 'patch no longer applies to /repo HEAD'); shutil.rmtree(d); sys.exit(3)
+    ck = subprocess.run(['/verif/check', pid, '--tier', tier], env=dict(os.environ, VERIF_REPO=repo), capture_output=True, text=True)
+    lines = [l for l in ck.stdout.splitlines() if re.match(r'VIOLATION|  what:|DIVERGENCE|C\d\d:', l)]
+    meta.setdefault('first_run', {'exit': meta['check']['exit'], 'detected': meta['detected']})
+    meta['check'] = {'cmd': 'VERIF_REPO=<scratch copy with the patch> ./check %s --tier %s' % (pid, tier), 'exit': ck.returncode,
+                     'output': lines[:6], 'stderr': ck.stderr[-300:]}
+    meta['detected'] = ck.returncode == 1
+    json.dump(meta, open('/verif/seeded/' + sid + '/meta.json', 'w'), indent=1)
+    shutil.rmtree(d)
+    print(sid, 'recheck exit=%d detected=%s (first run: %s)' % (ck.returncode, meta['detected'], meta['first_run']['detected']))
+    sys.exit(0)
 rc0, out0 = run_demo()
 meta['demo_without_change'] = 'pass' if rc0 == 0 else 'FAIL'
 p = subprocess.run(['patch', '-p1', '-s', '-i', os.path.abspath(src + '/patch.diff')], cwd=repo, capture_output=True, text=True)
